@@ -197,6 +197,12 @@ func Explore(opts Options, gen func(c *Ctx)) Stats {
 
 type divergence string
 
+// PanicHook, if set, is offered every panic that escapes a generator or a Range body, with a
+// description of the case and the stack of the panicking goroutine. If it returns true the panic
+// has been dealt with (the execution is abandoned and exploration goes on); otherwise the process
+// ends as a harness failure.
+var PanicHook func(where string, r any, stack []byte) bool
+
 func runGen(gen func(c *Ctx), c *Ctx, onDiv func([]int, string)) (ok bool) {
 	ok = true
 	defer func() {
@@ -207,8 +213,13 @@ func runGen(gen func(c *Ctx), c *Ctx, onDiv func([]int, string)) (ok bool) {
 				return
 			}
 			// a panic escaping a generator is a harness defect (jennifer panics are caught and
-			// judged inside the generators), never a property violation
-			fmt.Fprintf(os.Stderr, "HARNESS FAILURE: panic in generator with choice vector %v: %v\n%s\n", c.choices, r, debug.Stack())
+			// judged inside the generators) unless the hook recognises it as raised inside jennifer
+			stack := debug.Stack()
+			if PanicHook != nil && PanicHook(fmt.Sprintf("choice vector %v", c.choices), r, stack) {
+				ok = false
+				return
+			}
+			fmt.Fprintf(os.Stderr, "HARNESS FAILURE: panic in generator with choice vector %v: %v\n%s\n", c.choices, r, stack)
 			os.Exit(2)
 		}
 	}()
@@ -250,13 +261,27 @@ func Range(n int64, workers int, stop func() bool, fn func(worker int, i int64))
 					hi = n
 				}
 				for i := lo; i < hi; i++ {
-					fn(w, i)
+					rangeBody(fn, w, i)
 				}
 			}
 		}(w)
 	}
 	wg.Wait()
 	return !stopped.Load()
+}
+
+func rangeBody(fn func(worker int, i int64), w int, i int64) {
+	defer func() {
+		if r := recover(); r != nil {
+			stack := debug.Stack()
+			if PanicHook != nil && PanicHook(fmt.Sprintf("case %d of an enumerated range", i), r, stack) {
+				return
+			}
+			fmt.Fprintf(os.Stderr, "HARNESS FAILURE: panic in case %d of an enumerated range: %v\n%s\n", i, r, stack)
+			os.Exit(2)
+		}
+	}()
+	fn(w, i)
 }
 
 // Perms returns all permutations of 0..n-1 with the identity first.
